@@ -6,6 +6,10 @@ use super::*;
 use crate::packet::v5::server_reference_id::BloomFilter;
 use crate::system::{NtpSnapshot, TimeSnapshot};
 use crate::verif_common::harness;
+
+// field-level constructors/observers used by the source.rs / system.rs harnesses (see common.rs FromParts/Parts)
+#[path = "source_parts.rs"]
+mod source_parts;
 use std::sync::atomic::{AtomicBool, AtomicU64, AtomicU8, AtomicUsize, Ordering::Relaxed};
 
 // ---------------------------------------------------------------- generators (full domains)
